@@ -22,7 +22,11 @@ type Violation struct {
 	// Class is what the shrinker must preserve (oracle + the part of the
 	// signature that does not name removable faults); empty = oracle only.
 	Class string `json:"class,omitempty"`
-	Msg   string `json:"msg"`
+	// Probabilistic marks evidence from the free-running race stage: the race
+	// detector has no false positives, but whether a run exhibits the race is not
+	// decided by the simulator, so a report stands even if a replay stays quiet.
+	Probabilistic bool   `json:"probabilistic,omitempty"`
+	Msg           string `json:"msg"`
 }
 
 func (v Violation) String() string { return v.Prop + " " + v.Sig + " :: " + v.Msg }
@@ -418,6 +422,22 @@ func RunBatch(w *World, chk Check, cfg BatchConfig) int {
 					break
 				}
 			}
+			if !res.ok && fd.v.Probabilistic {
+				// keep the original scenario and the captured report
+				res = result{sc: fd.sc, v: fd.v, orig: fd, ok: true}
+				for attempt := 0; attempt < 4; attempt++ {
+					hit := false
+					for _, v := range chk.Judge(ctx, fd.sc) {
+						if sameClass(v, fd.v) {
+							res.v = v
+							hit = true
+						}
+					}
+					if hit {
+						break
+					}
+				}
+			}
 			results[k] = res
 		}(k, byClass[key])
 	}
@@ -427,6 +447,17 @@ func RunBatch(w *World, chk Check, cfg BatchConfig) int {
 		return 2
 	}
 	reported := map[string]bool{}
+	for i := range results {
+		res := &results[i]
+		if nr, ok := chk.(interface{ NonReplayIsViolation() bool }); ok && !res.ok && nr.NonReplayIsViolation() {
+			// for C18 an outcome that varies between executions of one scenario is the violation
+			res.ok = true
+			res.sc = res.orig.sc
+			res.v = res.orig.v
+			res.v.Msg += " || NOTE: this violation did not show again when the scenario was re-executed: the outcome varies from run to run (the simulator's own determinism is established by ./check selftest)"
+			res.v.Probabilistic = true
+		}
+	}
 	for _, res := range results {
 		if !res.ok {
 			fmt.Printf("HARNESS: violation %s does not replay (a source of nondeterminism escaped the simulator)\n", res.orig.v)
